@@ -9,6 +9,16 @@ use std::process::{Command, Stdio};
 const BIN: &str = env!("CARGO_BIN_EXE_monorail");
 
 fn free_port() -> u16 { std::net::TcpListener::bind("127.0.0.1:0").unwrap().local_addr().unwrap().port() }
+// is some socket of this machine listening on the port? (/proc/net/tcp: local address `0100007F:<port hex>`, state 0A = LISTEN)
+fn listening(port: u16) -> bool {
+    let want = format!(":{:04X}", port);
+    for f in ["/proc/net/tcp", "/proc/net/tcp6"] {
+        if let Ok(t) = std::fs::read_to_string(f) {
+            for l in t.lines().skip(1) { let c: Vec<&str> = l.split_whitespace().collect(); if c.len() > 3 && c[1].ends_with(&want) && c[3] == "0A" { return true; } }
+        }
+    }
+    false
+}
 fn expected(target: &str, cmd: &str, stream: &str) -> String {
     let n = 40 + 40 * (target.as_bytes()[1] - b'1') as usize;
     let head = if stream == "stdout" && target == "t1" { format!("{}-{}-stdout begin ... end\n", target, cmd) } else { String::new() };
@@ -34,9 +44,10 @@ fn run_combo(root: &std::path::Path, seq: u64, so: bool, se: bool, ft: &[&str], 
         if !ft.is_empty() { a.push("-t".into()); a.extend(ft.iter().map(|s| s.to_string())); }
         if !fc.is_empty() { a.push("-c".into()); a.extend(fc.iter().map(|s| s.to_string())); }
         let mut tail = Command::new(BIN).current_dir(root).args(&a).stdout(Stdio::piped()).stderr(Stdio::null()).spawn().unwrap();
-        // wait until the listener accepts (a probe connection that closes at once is served and forgotten)
+        // wait until the listener is bound - WITHOUT connecting to it: `log tail` serves one client at a time and gives up when a client
+        // goes away during the handshake, so a probe connection could end the listener before the run connects
         let t0 = std::time::Instant::now();
-        loop { if std::net::TcpStream::connect(("127.0.0.1", lp)).is_ok() { break; } if t0.elapsed().as_secs() > 10 { break; } std::thread::sleep(std::time::Duration::from_millis(30)); }
+        loop { if listening(lp) { break; } if t0.elapsed().as_secs() > 10 { break; } std::thread::sleep(std::time::Duration::from_millis(20)); }
         std::thread::sleep(std::time::Duration::from_millis(150));
         let run = Command::new(BIN).current_dir(root).arg("-f").arg(&cfg).args(["run", "-c", "emit", "other", "-t", "t1", "t2", "t3"]).output().unwrap();
         std::thread::sleep(std::time::Duration::from_millis(400));
